@@ -10,9 +10,11 @@
    the first; entering a group from its successor lands on the last rank, from its
    predecessor on rank 0.  Hence N steps in one direction show N distinct candidates
    - all of them - and the next step starts over.
-   NOT proved (DESIGN.md C15): the same for aliased groups (column-major walk over ragged
-   rows through findFirstCandidate) and the composition over several groups; both are
-   in the model and are compared with the implementation on every run. *)
+   The same is proved for EVERY aliased group (values sharing descriptions: ragged rows of any
+   lengths within maxX, walked column by column through findFirstCandidate, whose loop is
+   shown to terminate within its fuel): rank_al numbers the cells in column-major order.
+   NOT proved (DESIGN.md C15): the composition over several groups (cycleNextGroup /
+   cyclePreviousGroup) - in the model and compared with the implementation on every run. *)
 From Model Require Import Base Grid.
 From Proofs Require Import GridP.
 Open Scope Z_scope.
@@ -59,4 +61,45 @@ Proof.
   split; [|split; [|vm_compute; reflexivity]].
   - unfold wf_plain, rows_pos, nrows, zlen, fresh_group. cbn. repeat split; try lia; try reflexivity. repeat constructor; lia.
   - unfold valid. repeat split; try (vm_compute; reflexivity); vm_compute; discriminate.
+Qed.
+
+(* ---- aliased groups (candidates sharing a description): ragged rows, column-major *)
+
+Theorem C15_aliased_forward_step : forall g c, wf_aliased g -> valid_al g c ->
+  match move_selector (at_cell g c) 0 1 with
+  | Ok (g', false, _) => g' = at_cell g (pos_of g') /\ valid_al g (pos_of g') /\ rank_al g (pos_of g') = rank_al g c + 1
+  | Ok (_, true, next) => next = true /\ rank_al g c + 1 = total_al g
+  | _ => False
+  end.
+Proof. exact aliased_forward_rank. Qed.
+
+Theorem C15_aliased_backward_step : forall g c, wf_aliased g -> valid_al g c ->
+  match move_selector (at_cell g c) 0 (-1) with
+  | Ok (g', false, _) => g' = at_cell g (pos_of g') /\ valid_al g (pos_of g') /\ rank_al g (pos_of g') = rank_al g c - 1
+  | Ok (_, true, next) => next = false /\ rank_al g c = 0
+  | _ => False
+  end.
+Proof. exact aliased_backward_rank. Qed.
+
+Theorem C15_aliased_rank_is_a_numbering : forall g, wf_aliased g ->
+  (forall c, valid_al g c -> 0 <= rank_al g c < total_al g) /\
+  (forall c1 c2, valid_al g c1 -> valid_al g c2 -> rank_al g c1 = rank_al g c2 -> c1 = c2).
+Proof. intros g W. split; [intros c; apply rank_al_range; exact W | intros c1 c2; apply rank_al_inj; exact W]. Qed.
+
+Theorem C15_aliased_entry : forall g, wf_aliased g ->
+  (g_px g = -1 -> g_py g = -1 -> move_selector g 0 1 = Ok (set_pos g 0 0, false, false)) /\
+  rank_al g (pos_of (first_cell g)) = 0 /\
+  (exists g', last_cell g = Ok g' /\ g' = at_cell g (pos_of g') /\ valid_al g (pos_of g') /\ rank_al g (pos_of g') = total_al g - 1).
+Proof.
+  intros g W. split; [apply aliased_fresh_forward; exact W|]. split; [reflexivity | apply aliased_last_rank; exact W].
+Qed.
+
+(* non-vacuity: the ragged aliased grid [4; 3; 1] *)
+Example C15_aliased_example :
+  wf_aliased (fresh_group [4; 3; 1] true 4 3 4) /\ valid_al (fresh_group [4; 3; 1] true 4 3 4) (1, 2) /\
+  rank_al (fresh_group [4; 3; 1] true 4 3 4) (1, 2) = 6 /\ total_al (fresh_group [4; 3; 1] true 4 3 4) = 8.
+Proof.
+  split; [|split; [|split; vm_compute; reflexivity]].
+  - unfold wf_aliased, nrows, zlen, fresh_group. cbn. repeat split; try lia; try reflexivity. repeat constructor; lia.
+  - unfold valid_al, valid. repeat split; try (vm_compute; reflexivity); vm_compute; discriminate.
 Qed.
